@@ -743,6 +743,70 @@ func fkGenTree(r *Rng, n int, mode string, first uint64, wild bool) *fkTree {
 	return t
 }
 
+// fkHeldBackGadget (seeded mutant C01-m5): a fork of two or three blocks that stays at or below the head (so it is stored
+// but never delivered: the cached longest chain ends in it), followed at once by a block that hangs off an INTERIOR block
+// of that fork and skips enough numbers to become the new head. Consecutive arrivals that reuse or invalidate the cached
+// chain are otherwise drawn too rarely. The declared LIB is the junction's, which keeps the history in the LIB class.
+func fkHeldBackGadget(r *Rng, t *fkTree) []fkBlock {
+	linked := func(b fkBlock) (int, bool) {
+		cur, d := b, 0
+		for i := 0; i < 1000; i++ {
+			if cur.ID == t.lib.ID {
+				return d, true
+			}
+			p, ok := t.byID[cur.Parent]
+			if !ok {
+				return d, cur.Parent == t.lib.ID && t.lib.ID != 0
+			}
+			cur, d = p, d+1
+		}
+		return 0, false
+	}
+	var head fkBlock
+	depth := -1
+	for _, b := range t.blocks {
+		if d, ok := linked(b); ok && (depth < 0 || b.Num > head.Num) {
+			head, depth = b, d
+		}
+	}
+	if depth < 2 {
+		return nil
+	}
+	up := 2 + r.Intn(3)
+	if up > depth {
+		up = depth
+	}
+	junction := head
+	for i := 0; i < up; i++ {
+		p, ok := t.byID[junction.Parent]
+		if !ok {
+			break
+		}
+		junction = p
+	}
+	newID := func() uint64 { t.nextID += uint64(1 + r.Intn(3)); return t.nextID }
+	m := 2 + r.Intn(2)
+	var out []fkBlock
+	prev := junction
+	for i := 0; i < m; i++ {
+		b := fkBlock{ID: newID(), Num: prev.Num + 1, Parent: prev.ID, Lib: junction.Lib}
+		out = append(out, b)
+		prev = b
+	}
+	inner := out[r.Intn(m-1)]
+	top := head.Num
+	if prev.Num > top {
+		top = prev.Num
+	}
+	out = append(out, fkBlock{ID: newID(), Num: top + 1 + uint64(r.Intn(2)), Parent: inner.ID, Lib: junction.Lib})
+	if r.Chance(40) {
+		// and the stream goes on from there
+		last := out[len(out)-1]
+		out = append(out, fkBlock{ID: newID(), Num: last.Num + 1, Parent: last.ID, Lib: junction.Lib})
+	}
+	return out
+}
+
 func min64(a, b uint64) uint64 {
 	if a < b {
 		return a
@@ -883,6 +947,13 @@ func fkGen(prop string) func(r *Rng, i int, tier string) any {
 			in.History[k].Parent = in.History[k].ID
 			in.Shape += "/selfparent"
 		}
+		// drawn last, so that the cases without the gadget are the ones of earlier rounds
+		if r.Chance(15) {
+			if g := fkHeldBackGadget(r, t); g != nil {
+				in.History = append(in.History, g...)
+				in.Shape += "/heldback-fork"
+			}
+		}
 		return in
 	}
 }
@@ -935,6 +1006,15 @@ func fkCorpus(prop string) func() []any {
 					{ID: 104, Num: 8, Parent: 103, Lib: 6}, {ID: 105, Num: 7, Parent: 102, Lib: 5}, {ID: 106, Num: 9, Parent: 105, Lib: 6},
 					{ID: 107, Num: 10, Parent: 106, Lib: 7}},
 				Lookups: prop == "C18", Shape: "excl/corpus-reorg-after-lib-move"})
+		}
+		// seeded mutant C01-m5: 3b, 4b are held back behind head 4a (the cached longest chain ends in them); 6c hangs off the
+		// interior held-back block 3b and becomes the head: Undo 4a, Undo 3a, New 3b, New 6c
+		for _, m := range []string{"excl", "incl", "disc"} {
+			out = append(out, &fkInput{Prop: prop, Mode: m, LIB: fkRef{ID: 100, Num: 1}, Kept: 1, Filter: 51, FailAt: -1,
+				History: []fkBlock{{ID: 100, Num: 1, Parent: 99, Lib: 1}, {ID: 102, Num: 2, Parent: 100, Lib: 1}, {ID: 103, Num: 3, Parent: 102, Lib: 1},
+					{ID: 104, Num: 4, Parent: 103, Lib: 1}, {ID: 113, Num: 3, Parent: 102, Lib: 1}, {ID: 114, Num: 4, Parent: 113, Lib: 1},
+					{ID: 126, Num: 6, Parent: 113, Lib: 1}, {ID: 127, Num: 7, Parent: 126, Lib: 2}},
+				Lookups: prop == "C18", Shape: m + "/corpus-heldback-fork"})
 		}
 		return out
 	}
